@@ -41,6 +41,38 @@ CHECKS = {
         "Tie: typed template sets x base-path forms x instantiations over typed/empty/foreign/escaped segments through the compiled package.",
    note="Trusted as C04. The hypothesis 'template matches the segments' is discharged by C03 for dispatched requests.",
    ref="DESIGN.md section 4 (C05)"),
+ "C06": dict(
+   technique="Coq proof by nested induction over schemas (comma/member automaton invariant; shared-map prefix invariant for the round trip) + differential check of the compiled codecs",
+   text="C06_valid_json: for every schema of the JSON dialect (any nesting, allOf with embedded $ref members and inline members in any "
+        "order, additionalProperties) and every well-typed value, the model of MarshalJSON/marshalJSONInnerBody writes a well-formed "
+        "comma/member sequence, so encoding always yields a JSON value. C06_roundtrip: for every schema and every value in the domain rt_ok "
+        "(distinct property names and map keys, in-range integers, embedded members without their own additionalProperties), decoding the "
+        "encoding with the model of UnmarshalJSON/unmarshalJSONInnerBody (shared key map, deletion of consumed keys, leftovers as "
+        "AdditionalProperties) returns the value. Tie: seeded schemas x boundary/random values through json.Marshal / json.Valid / "
+        "json.Unmarshal of the compiled package vs the extracted model.",
+   note="Trusted: Coq kernel; extraction + driver.ml (incl. its JSON reader/printer); harness value builder/dumper. Hypotheses of the theorem "
+        "(stdlib, not proved): number and time formatting round-trip. Modelled not verified: Go semantics of the emitted codec, encoding/json on "
+        "leaf types. Known finding D28 (embedded member with additionalProperties) is outside rt_ok and reported as KNOWN-FINDING.",
+   ref="DESIGN.md section 4 (C06-C08)"),
+ "C07": dict(
+   technique="Coq proof by nested induction that the encoder's output satisfies an independent validator + differential check",
+   text="C07_conforms: for every schema and every value in the domain rt_ok, the JSON produced by the codec model validates against the "
+        "schema under the independent validator of Spec/JsonSpec.v (required present, null only where nullable, declared types/formats, no "
+        "duplicate keys, allOf members all satisfied by the one merged object, undeclared keys typed by additionalProperties). Tie: the bytes "
+        "the compiled package writes equal the model's JSON on every case, and the extracted validator accepts them.",
+   note="As C06. The validator is part of the specification (read it: ~60 lines). kin-openapi's VisitJSON is not used as a second opinion in "
+        "this round.",
+   ref="DESIGN.md section 4 (C06-C08)"),
+ "C08": dict(
+   technique="Coq proof of decoder strictness (missing required / wrong type rejected, for every schema) + differential check on documents generated from the schema and their single-fault mutants; losslessness proved on encoder outputs only (partial)",
+   text="C08_missing_required, C08_wrong_type, C08_declared_properties_decode: for every object schema (embedded members included) a document "
+        "lacking a required property or carrying a non-null value of the wrong JSON type for a declared property is rejected by the decoder "
+        "model (frame lemma: an embedded member only deletes keys it declares). Losslessness is proved for documents produced by the encoder "
+        "(C06_roundtrip); for arbitrary valid documents (optional subsets, null where allowed, extra keys, key permutations) it is checked, not "
+        "proved: the tie decodes documents generated FROM the schema by an independent generator and their single-fault mutants, compares value, "
+        "re-encoding and error (which must name the property) with the model, and the generator's validity label with the Coq validator.",
+   note="As C06. PARTIAL: `validates s j -> decode succeeds and re-encodes to the kept part` is not a theorem in this round.",
+   ref="DESIGN.md section 4 (C06-C08)"),
  "C11": dict(
    technique="Coq proof over the model of NewRouter/authMiddlewareOr (soundness+completeness of the auth loop w.r.t. the operation's effective requirement) + enumeration of all small security configurations against the compiled package",
    text="C11_auth_sound/complete: for every spec the generator accepts, every API configuration and request, the authenticator loop emitted for an "
